@@ -7,7 +7,7 @@
    it_tol; what it returned: it_res; the slack error after the call: it_err, ‖·‖∞ = it_norm); `snd` is ALMSolver::Stats
    plus the written-back Σ and y.  `chain Q l` = Q holds between every two consecutive outer iterations. *)
 From Coq Require Import Reals List ZArith Lra Bool Arith.
-From Alpaqa Require Import Num NumR Vec Prox Alm AlmProofs.
+From Alpaqa Require Import Num NumR Vec Prox Alm AlmProofs AlmGen StatsAcc AlmGenEq.
 Import ListNotations.
 Local Open Scope R_scope.
 
@@ -241,3 +241,81 @@ Example C07_nonvacuous_run :
   exists a b tr', fst (alm_run P wpb 0 [0] 0 None [0] [wr; wr]) = a :: b :: tr' /\
     it_Sigma a = [1] /\ it_Sigma b = [4] /\ it_tol a = 1 /\ it_tol b = 1/2 /\ it_y a = [0].
 Proof. exact w_run_grows. Qed.
+
+(* ---- (11) tie 1: the kernels REGENERATED from alm-helpers.tpp / alm.tpp on every run (coq/gen/AlmGen.v, written by
+        translate/gen_C07_alm.py) are the kernels of the model all theorems above are about.  A source change changes the
+        left-hand sides and breaks these obligations. ---- *)
+Theorem C07_gen_update_penalty_weights_is_model : forall (P : alm_params (T:=R)) i e o ne no Σ,
+  g_call_update_penalty_weights P i e o ne no Σ = update_penalty_weights P (Nat.eqb i 0) e o ne no Σ.
+Proof. exact gen_call_update_penalty_weights_eq. Qed.
+Print Assumptions C07_gen_update_penalty_weights_is_model.
+
+Theorem C07_gen_component_update_is_model : forall (P : alm_params (T:=R)) first ne no e o σ,
+  (if g_comp_cond P (p_Delta P) first ne no e o σ then g_comp_new P (p_Delta P) first ne no e o σ else σ)
+  = upd1 P first ne e o σ.
+Proof. exact gen_comp_eq. Qed.
+Print Assumptions C07_gen_component_update_is_model.
+
+Theorem C07_gen_initial_sigma_is_model : forall (P : alm_params (T:=R)) m f0 g0 Σ0,
+  g_initial_sigma P m f0 g0 Σ0 = initial_sigma P m f0 g0 Σ0.
+Proof. exact gen_initial_sigma_eq. Qed.
+Print Assumptions C07_gen_initial_sigma_is_model.
+
+Theorem C07_gen_termination_and_status_are_model : forall (P : alm_params (T:=R)) (r : iter_rec (T:=R)),
+  (it_i r < p_max_iter P)%nat ->    (* holds for every outer iteration: C07_outer_iterations_and_stats *)
+  rec_conv P r = g_alm_converged P (ir_eps (it_res r)) (g_inner_converged (ir_status (it_res r))) (it_norm r) /\
+  rec_exit P r = g_exit (rec_conv P r) (g_out_of_iter P (it_i r)) (ir_oot (it_res r)) /\
+  rec_status P r = (if g_is_interrupted (ir_status (it_res r)) then Interrupted
+                    else g_exit_status (rec_conv P r) (ir_oot (it_res r)) (g_out_of_iter P (it_i r))).
+Proof. exact (fun P r Hi => conj (rec_conv_is_generated P r) (conj (rec_exit_is_generated P r Hi) (rec_status_is_generated P r Hi))). Qed.
+Print Assumptions C07_gen_termination_and_status_are_model.
+
+Theorem C07_gen_loop_step_is_model : forall (P : alm_params (T:=R)) pb i (s : st (T:=R)) (r : inner_res (T:=R)),
+  let err := err_of pb s r in
+  s_Sigma (next P pb i s r) = g_call_update_penalty_weights P i err (s_err_old s) (g_norm_e err) (s_norm_old s) (s_Sigma s) /\
+  s_eps (next P pb i s r) = g_next_tol P (s_eps s) /\
+  s_fails (next P pb i s r) = (s_fails s + g_failure_increment (g_inner_converged (ir_status r)))%nat /\
+  it_y (mkrec P pb i s r) = proj_multipliers (pb_split pb) (pb_lb pb) (pb_ub pb) (g_proj_bound P) (s_y s).
+Proof. exact next_is_generated. Qed.
+Print Assumptions C07_gen_loop_step_is_model.
+
+Theorem C07_gen_initial_state_is_model : forall (P : alm_params (T:=R)) pb f0 g0 nanv Σ0 y0,
+  s_Sigma (init_state P pb f0 g0 nanv Σ0 y0) = g_initial_sigma P (pb_m pb) f0 g0 Σ0 /\
+  s_eps (init_state P pb f0 g0 nanv Σ0 y0) = g_initial_tol P.
+Proof. exact init_state_is_generated. Qed.
+Print Assumptions C07_gen_initial_state_is_model.
+
+(* clock expressions of alm.tpp (durations as integers): the budget handed to the inner solver is in [0, max(max_time,0)] *)
+Theorem C07_gen_time_remaining : forall elapsed max_time : Z, (0 <= elapsed)%Z ->
+  (0 <= g_time_remaining elapsed max_time <= Z.max max_time 0)%Z /\
+  ((elapsed < max_time)%Z -> g_time_remaining elapsed max_time = (max_time - elapsed)%Z) /\
+  ((max_time <= elapsed)%Z -> g_time_remaining elapsed max_time = 0%Z).
+Proof. exact gen_time_remaining_spec. Qed.
+Print Assumptions C07_gen_time_remaining.
+
+Theorem C07_gen_out_of_time : forall elapsed max_time : Z,
+  g_out_of_time elapsed max_time = true <-> (max_time < elapsed)%Z.
+Proof. exact gen_out_of_time_spec. Qed.
+Print Assumptions C07_gen_out_of_time.
+
+(* InnerSolveOptions initialisers as written in alm.tpp (loop and m = 0 shortcut) *)
+From Coq Require Import String.
+Local Open Scope string_scope.
+Theorem C07_gen_inner_options :
+  (has "always_overwrite_results" "true" g_opts_loop && has "max_time" "time_remaining" g_opts_loop &&
+   has "tolerance" "ε" g_opts_loop && has "outer_iter" "i" g_opts_loop && has "check" "false" g_opts_loop = true) /\
+  (has "always_overwrite_results" "true" g_opts_m0 && has "max_time" "params.max_time" g_opts_m0 &&
+   has "tolerance" "params.tolerance" g_opts_m0 && has "check" "false" g_opts_m0 = true).
+Proof. exact (conj gen_opts_loop_spec gen_opts_m0_spec). Qed.
+Print Assumptions C07_gen_inner_options.
+Local Close Scope string_scope.
+
+(* ---- (12) G5: the five shipped InnerStatsAccumulator operator+= bodies (coq/gen/StatsAcc.v): every final_* field keeps the
+        last value, every other field is summed, and every Stats field except status and ε is accumulated exactly once ---- *)
+Theorem C07_stats_accumulators_are_sums : 
+  List.length acc_all = 5%nat /\
+  forallb (fun e => let '(_, t, fields) := e in
+                    acc_table_ok t && acc_complete t fields && negb (Nat.eqb (List.length t) 0)) acc_all = true.
+Proof. exact stats_accumulators_ok. Qed.
+Print Assumptions C07_stats_accumulators_are_sums.
+
